@@ -334,6 +334,13 @@ Section Accept.
     apply tp_op; [exact I|]. intros [[[| |]|]| | | | |]; try (now constructor); try (apply Body; exact Hr).
     destruct (d_relaxed dev); [apply Body; exact Hr | now constructor].
   Qed.
+  (* a join-request whose MIC does not verify under the device's AppKey: its handler reads the row and stops *)
+  Theorem forged_join_tp cfg' f rx an na :
+    (buffer_mic E ak (firstn 19 (rx_raw rx)) =? mic f) = false -> tp false (join_prog E D cfg' f rx an na).
+  Proof.
+    intros Hm. unfold join_prog. apply tp_read. intros r Hr. destruct r as [|[dev0|]| | | |]; try (now constructor).
+    rewrite (Hr dev0 eq_refl), Hm. cbn [negb]. now constructor.
+  Qed.
   Theorem join_prog_jpre f rx : jr_devnonce (jr f) = dn -> jpre (join_prog E D cfg f rx appnonce newaddr).
   Proof.
     intros Hdn. unfold join_prog. apply jp_read. intros r Hr. destruct r as [|[dev0|]| | | |]; try (apply jp_done; now constructor).
@@ -377,8 +384,46 @@ Proof.
   split; [now apply join_prog_jpre|]. apply Forall_forall. intros p Hin. apply in_map_iff in Hin. destruct Hin as (u & <- & _). apply uplink_prog_tp.
 Qed.
 
+(* ... and with forged join-requests for the same device handled at the same time (C04): the other handlers of the pool are
+   uplink handlers (any frames) or join handlers of requests whose MIC does not verify under the device's AppKey. Every
+   join-accept that leaves answers the GENUINE request (it is the encoding of the record built from its AppNonce and the
+   address), and when one has left the stored session is the one derived from the genuine request's DevNonce: a forged
+   request, whatever the interleaving, neither is answered nor changes the keys. *)
+Inductive bystander E D (r : device) : prog -> Prop :=
+| by_uplink f rx n now : bystander E D r (uplink_prog E D f rx n now)
+| by_forged cfg f rx an na : (buffer_mic E (d_appkey r) (firstn 19 (rx_raw rx)) =? mic f) = false -> bystander E D r (join_prog E D cfg f rx an na).
+
+Theorem forged_joins_alongside_a_genuine_one E D apps cfg jf jrx appnonce newaddr others sched fuel st r :
+  ds_row st = Some r -> fb_noja st -> Forall (bystander E D r) others ->
+  let res := interleaveN apps sched fuel st (join_prog E D cfg jf jrx appnonce newaddr :: others) [] in
+  let addr := if d_addr r =? 0 then newaddr else d_addr r in
+  Forall (fun raw => encode_join_accept E D (d_appkey r) JoinAccept c_MaxSupportedVersion
+                       {| ja_appnonce := appnonce; ja_netid := N.land (cfg_netid cfg) 4294967295; ja_devaddr := devaddr_of_u32 addr;
+                          ja_rx1droffset := 0; ja_rx2dr := 5; ja_rxdelay := 1 |} = Ok raw) (ja_raws (snd res)) /\
+  (ja_raws (snd res) <> [] ->
+   exists x, ds_row (fst res) = Some x /\
+     d_nwkskey x = nwkskey_from_nonces E (d_appkey r) appnonce (cfg_netid cfg) (jr_devnonce (jr jf)) /\
+     d_appskey x = appskey_from_nonces E (d_appkey r) appnonce (cfg_netid cfg) (jr_devnonce (jr jf)) /\
+     d_addr x = addr /\ d_appkey x = d_appkey r).
+Proof.
+  intros Hr Hfb Hoth res addr.
+  apply (interleaveN_accept E D apps r cfg appnonce newaddr (jr_devnonce (jr jf))).
+  split; [exists r; split; [exact Hr | split; reflexivity]|]. split; [exact Hfb|]. split; [reflexivity|].
+  split; [now apply join_prog_jpre|]. eapply Forall_impl; [|exact Hoth].
+  intros p [f rx n now | cfg' f rx an na Hm]; [apply uplink_prog_tp | now apply forged_join_tp].
+Qed.
+
 (* witnesses with the concrete cipher: in both runs of SessionProof / SessionDataProof one join-accept leaves, and the premises hold *)
 From Lospan Require Import Base.AES Proof.SessionProof.
 Example accept_witnesses :
   length (ja_raws (snd sj_result)) = 1%nat /\ length (ja_raws (snd sd_result)) = 1%nat /\ fb_noja (w_st 5 3).
 Proof. vm_compute. repeat split. Qed.
+
+(* a forged request for the witness device: same EUIs, another key *)
+From Lospan Require Import Spec.RefDevice.
+Definition fj_raw : list N := ref_join_request aes_enc (repeat 1 16) [9;0;0;0;0;0;0;0] [1;0;0;0;0;0;0;0] [8;0].
+Definition fj_frame : frame := match decode (mk_slice fj_raw []) with Ok f => f | _ => new_phy 0 end.
+Example forged_witness :
+  (buffer_mic aes_enc (d_appkey (w_dev 5 3)) (firstn 19 fj_raw) =? mic fj_frame) = false /\
+  (buffer_mic aes_enc (d_appkey (w_dev 5 3)) (firstn 19 sj_raw) =? mic sj_frame) = true.
+Proof. vm_compute. split; reflexivity. Qed.
